@@ -1,1 +1,236 @@
-(* placeholder *)
+(* Order, sorting and grouping lemmas used by the C17 proofs.
+   Main results:
+     path_cmp_ok / str_cmp_ok   the model's orders are total orders (decided by a comparison function)
+     isort_unique               sorting by pairwise distinct keys forgets the input order
+     group_by_perm              the content of a group map does not depend on the input order, up to
+                                the order of the values inside a group *)
+From Coq Require Import String List Bool Arith Ascii Lia Permutation Sorted.
+From PVBld Require Import Names Pipeline.
+Import ListNotations.
+Open Scope list_scope.
+
+Record cmp_ok {K} (cmp : K -> K -> comparison) : Prop := {
+  cmp_eq : forall a b, cmp a b = Eq <-> a = b;
+  cmp_anti : forall a b, cmp b a = CompOpp (cmp a b);
+  cmp_trans : forall a b c, cmp a b = Lt -> cmp b c = Lt -> cmp a c = Lt }.
+
+(* ---- lexicographic lifting ------------------------------------------------------------------ *)
+Section LexP.
+  Context {A : Type} (cmp : A -> A -> comparison) (ok : cmp_ok cmp).
+
+  Lemma lex_eq p q : lex_cmp cmp p q = Eq <-> p = q.
+  Proof.
+    revert q. induction p as [|a p IH]; intros [|b q]; cbn; split; intros H; try reflexivity; try discriminate.
+    - destruct (cmp a b) eqn:E; try discriminate. apply (cmp_eq _ ok) in E. apply IH in H. now subst.
+    - injection H as -> ->. assert (cmp b b = Eq) as -> by now apply (cmp_eq _ ok). now apply IH.
+  Qed.
+
+  Lemma lex_anti p q : lex_cmp cmp q p = CompOpp (lex_cmp cmp p q).
+  Proof.
+    revert q. induction p as [|a p IH]; intros [|b q]; cbn; try reflexivity.
+    rewrite (cmp_anti _ ok a b). destruct (cmp a b); cbn; [apply IH|reflexivity|reflexivity].
+  Qed.
+
+  Lemma lex_trans p q r : lex_cmp cmp p q = Lt -> lex_cmp cmp q r = Lt -> lex_cmp cmp p r = Lt.
+  Proof.
+    revert q r. induction p as [|a p IH]; intros [|b q] [|c r]; cbn; try discriminate; try reflexivity.
+    destruct (cmp a b) eqn:E1; try discriminate.
+    - apply (cmp_eq _ ok) in E1. subst b.
+      destruct (cmp a c) eqn:E2; try discriminate; try reflexivity. apply IH.
+    - intros _. destruct (cmp b c) eqn:E2; try discriminate.
+      + apply (cmp_eq _ ok) in E2. subst c. now rewrite E1.
+      + intros _. now rewrite (cmp_trans _ ok a b c E1 E2).
+  Qed.
+
+  Lemma lex_ok : cmp_ok (lex_cmp cmp).
+  Proof. constructor; [apply lex_eq|intros; apply lex_anti|apply lex_trans]. Qed.
+End LexP.
+
+Lemma nat_of_ascii_inj a b : nat_of_ascii a = nat_of_ascii b -> a = b.
+Proof. intros H. rewrite <- (ascii_nat_embedding a), <- (ascii_nat_embedding b). now rewrite H. Qed.
+
+Lemma ascii_cmp_ok : cmp_ok ascii_cmp.
+Proof.
+  unfold ascii_cmp. constructor.
+  - intros a b. rewrite Nat.compare_eq_iff. split; [apply nat_of_ascii_inj|now intros ->].
+  - intros a b. apply Nat.compare_antisym.
+  - intros a b c. rewrite !Nat.compare_lt_iff. lia.
+Qed.
+
+Lemma list_ascii_inj s t : list_ascii_of_string s = list_ascii_of_string t -> s = t.
+Proof.
+  intros H. rewrite <- (string_of_list_ascii_of_string s), <- (string_of_list_ascii_of_string t). now rewrite H.
+Qed.
+
+Lemma str_cmp_ok : cmp_ok str_cmp.
+Proof.
+  pose proof (lex_ok _ ascii_cmp_ok) as L. unfold str_cmp. constructor.
+  - intros a b. rewrite (cmp_eq _ L). split; [apply list_ascii_inj|now intros ->].
+  - intros a b. apply (cmp_anti _ L).
+  - intros a b c. apply (cmp_trans _ L).
+Qed.
+
+Lemma path_cmp_ok : cmp_ok path_cmp.
+Proof. unfold path_cmp. apply lex_ok. apply str_cmp_ok. Qed.
+
+Lemma path_eqb_eq p q : path_eqb p q = true <-> p = q.
+Proof.
+  revert q. induction p as [|a p IH]; intros [|b q]; cbn; split; intros H; try reflexivity; try discriminate.
+  - apply andb_prop in H. destruct H as [H1 H2]. apply String.eqb_eq in H1. apply IH in H2. now subst.
+  - injection H as -> ->. rewrite String.eqb_refl. cbn. now apply IH.
+Qed.
+
+(* ---- sorting ------------------------------------------------------------------------------------ *)
+Section SortP.
+  Context {A K : Type} (key : A -> K) (cmp : K -> K -> comparison) (ok : cmp_ok cmp).
+
+  Definition le (x y : A) : Prop := leb cmp (key x) (key y) = true.
+
+  Lemma cmp_refl k : cmp k k = Eq.
+  Proof. now apply (cmp_eq _ ok). Qed.
+
+  Lemma le_total x y : le x y \/ le y x.
+  Proof.
+    unfold le, leb. rewrite (cmp_anti _ ok (key x) (key y)). destruct (cmp (key x) (key y)); cbn; auto.
+  Qed.
+
+  Lemma le_trans x y z : le x y -> le y z -> le x z.
+  Proof.
+    unfold le, leb. destruct (cmp (key x) (key y)) eqn:E1; try discriminate; intros _.
+    - apply (cmp_eq _ ok) in E1. now rewrite E1.
+    - destruct (cmp (key y) (key z)) eqn:E2; try discriminate; intros _.
+      + apply (cmp_eq _ ok) in E2. now rewrite <- E2, E1.
+      + now rewrite (cmp_trans _ ok _ _ _ E1 E2).
+  Qed.
+
+  Lemma le_antisym x y : le x y -> le y x -> key x = key y.
+  Proof.
+    unfold le, leb. rewrite (cmp_anti _ ok (key x) (key y)).
+    destruct (cmp (key x) (key y)) eqn:E; cbn; try discriminate.
+    intros _ _. now apply (cmp_eq _ ok).
+  Qed.
+
+  Lemma insert_perm x l : Permutation (insert key cmp x l) (x :: l).
+  Proof.
+    induction l as [|y r IH]; cbn; [reflexivity|].
+    destruct (leb cmp (key x) (key y)); [reflexivity|].
+    rewrite IH. apply perm_swap.
+  Qed.
+
+  Lemma isort_perm l : Permutation (isort key cmp l) l.
+  Proof. induction l as [|x r IH]; cbn; [reflexivity|]. rewrite insert_perm. now constructor. Qed.
+
+  Lemma insert_sorted x l : StronglySorted le l -> StronglySorted le (insert key cmp x l).
+  Proof.
+    induction 1 as [|y r S IH F]; cbn.
+    - constructor; constructor.
+    - destruct (leb cmp (key x) (key y)) eqn:E.
+      + constructor; [now constructor|]. constructor; [exact E|].
+        rewrite Forall_forall in *. intros z Hz. eapply le_trans; [exact E|now apply F].
+      + constructor; [assumption|].
+        assert (Hyx : le y x) by (destruct (le_total x y) as [H|H]; [unfold le in H; congruence|exact H]).
+        rewrite Forall_forall in *. intros z Hz.
+        apply (Permutation_in _ (insert_perm x r)) in Hz. destruct Hz as [<-|Hz]; [exact Hyx|now apply F].
+  Qed.
+
+  Lemma isort_sorted l : StronglySorted le (isort key cmp l).
+  Proof. induction l; cbn; [constructor|now apply insert_sorted]. Qed.
+
+  Lemma key_inj_in l x y : NoDup (map key l) -> In x l -> In y l -> key x = key y -> x = y.
+  Proof.
+    induction l as [|a r IH]; cbn; [tauto|]. intros N [Hx|Hx] [Hy|Hy] E; inversion N as [|? ? N1 N2]; subst.
+    - reflexivity.
+    - exfalso. apply N1. rewrite E. now apply in_map.
+    - exfalso. apply N1. rewrite <- E. now apply in_map.
+    - now apply IH.
+  Qed.
+
+  Lemma sorted_perm_unique l1 l2 :
+    StronglySorted le l1 -> StronglySorted le l2 -> Permutation l1 l2 -> NoDup (map key l1) -> l1 = l2.
+  Proof.
+    revert l2. induction l1 as [|a r1 IH]; intros l2 S1 S2 P N.
+    - apply Permutation_nil in P. now subst.
+    - destruct l2 as [|b r2]; [apply Permutation_sym, Permutation_nil in P; discriminate|].
+      inversion S1 as [|? ? S1' F1]; subst. inversion S2 as [|? ? S2' F2]; subst.
+      rewrite Forall_forall in F1, F2.
+      assert (a = b).
+      { assert (Ia : In a (b :: r2)) by (eapply Permutation_in; [exact P|now left]).
+        assert (Ib : In b (a :: r1)) by (eapply Permutation_in; [apply Permutation_sym; exact P|now left]).
+        destruct Ia as [->|Ia]; [reflexivity|]. destruct Ib as [->|Ib]; [reflexivity|].
+        apply (key_inj_in (a :: r1)); [assumption|now left|now right|].
+        apply le_antisym; [now apply F1|now apply F2]. }
+      subst b. f_equal. apply IH; try assumption.
+      + eapply Permutation_cons_inv; exact P.
+      + now inversion N.
+  Qed.
+
+  Theorem isort_unique l l' :
+    Permutation l l' -> NoDup (map key l) -> isort key cmp l = isort key cmp l'.
+  Proof.
+    intros P N. apply sorted_perm_unique; try apply isort_sorted.
+    - rewrite !isort_perm. exact P.
+    - eapply Permutation_NoDup; [|exact N]. apply Permutation_map. apply Permutation_sym, isort_perm.
+  Qed.
+End SortP.
+
+(* ---- group maps ----------------------------------------------------------------------------------- *)
+Section GroupP.
+  Context {A K : Type} (f : A -> K) (eqb : K -> K -> bool).
+  Hypothesis eqb_eq : forall a b, eqb a b = true <-> a = b.
+
+  Lemma existsb_eqb k seen : existsb (eqb k) seen = true <-> In k seen.
+  Proof.
+    rewrite existsb_exists. split.
+    - intros [x [H E]]. apply eqb_eq in E. now subst.
+    - intros H. exists k. split; [assumption|now apply eqb_eq].
+  Qed.
+
+  Lemma first_keys_in seen l k : In k (first_keys f eqb seen l) <-> In k (map f l) /\ ~ In k seen.
+  Proof.
+    revert seen. induction l as [|x r IH]; intros seen; cbn; [tauto|].
+    destruct (existsb (eqb (f x)) seen) eqn:E.
+    - apply existsb_eqb in E. rewrite IH. split; [tauto|]. intros [[H|H] N]; [subst; tauto|tauto].
+    - assert (~ In (f x) seen) by (rewrite <- existsb_eqb; congruence).
+      cbn. rewrite IH. cbn. split.
+      + intros [H1|[H1 H2]]; [subst; tauto|tauto].
+      + intros [[H1|H1] H2]; [now left|].
+        assert (D : f x = k \/ f x <> k).
+        { destruct (eqb (f x) k) eqn:Q; [left; now apply eqb_eq|right; intros Z; apply eqb_eq in Z; congruence]. }
+        destruct D as [D|D]; [now left|right]. split; [assumption|]. intros [Z|Z]; tauto.
+  Qed.
+
+  Lemma first_keys_nodup seen l : NoDup (first_keys f eqb seen l).
+  Proof.
+    revert seen. induction l as [|x r IH]; intros seen; cbn; [constructor|].
+    destruct (existsb (eqb (f x)) seen); [apply IH|]. constructor; [|apply IH].
+    rewrite first_keys_in. cbn. tauto.
+  Qed.
+
+  Lemma group_by_keys l : map fst (group_by f eqb l) = first_keys f eqb [] l.
+  Proof. unfold group_by. rewrite map_map. cbn. apply map_id. Qed.
+
+  Lemma group_by_nodup l : NoDup (map fst (group_by f eqb l)).
+  Proof. rewrite group_by_keys. apply first_keys_nodup. Qed.
+
+  Lemma first_keys_perm l l' :
+    Permutation l l' -> Permutation (first_keys f eqb [] l) (first_keys f eqb [] l').
+  Proof.
+    intros P. apply NoDup_Permutation; try apply first_keys_nodup.
+    intros k. rewrite !first_keys_in. cbn.
+    split; intros [H N]; (split; [|assumption]); eapply Permutation_in; try exact H; apply Permutation_map;
+      [exact P|apply Permutation_sym; exact P].
+  Qed.
+
+End GroupP.
+
+Lemma filter_perm' {A} (p : A -> bool) l l' : Permutation l l' -> Permutation (filter p l) (filter p l').
+Proof.
+  induction 1; cbn.
+  - constructor.
+  - destruct (p x); [now constructor|assumption].
+  - destruct (p x); destruct (p y); try reflexivity; try (now constructor); apply perm_swap.
+  - etransitivity; eassumption.
+Qed.
+
+Lemma map_ext_in' {A B} (f g : A -> B) l : (forall a, In a l -> f a = g a) -> map f l = map g l.
+Proof. apply map_ext_in. Qed.
